@@ -222,6 +222,26 @@ static auto apply4(Op op, const A& a, const B& b) {
     }
 }
 
+//the same applications with genuine temporaries (rvalues) as operands - which = 1: left, 2: right, 3: both - so that overloads taking
+//base_array&& (storage reuse) are the ones selected, as in a - (b * c)
+template<class A, class B>
+static auto apply_rv(Op op, const A& a, const B& b, int which) {
+    if constexpr (mul_only_v<A, B>) {
+        return (which == 1) ? A(a) * b : ((which == 2) ? a * B(b) : A(a) * B(b));
+    } else {
+        switch (op) {
+        case ADD:
+            return (which == 1) ? A(a) + b : ((which == 2) ? a + B(b) : A(a) + B(b));
+        case SUB:
+            return (which == 1) ? A(a) - b : ((which == 2) ? a - B(b) : A(a) - B(b));
+        case MUL:
+            return (which == 1) ? A(a) * b : ((which == 2) ? a * B(b) : A(a) * B(b));
+        default:
+            return (which == 1) ? A(a) / b : ((which == 2) ? a / B(b) : A(a) / B(b));
+        }
+    }
+}
+
 template<class A, class B>
 static void apply_compound(Op op, A& a, const B& b) {
     switch (op) {
@@ -256,6 +276,16 @@ static auto arr_arr(Op op, const A& a, const B& b) {
     judge(combo, op, a.size(), [&](int i) { return elt(a0, i); }, [&](int i) { return elt(b0, i); }, r);
     if (!same_bits(a, a0) || !same_bits(b, b0)) {
         vh::violation("C03/operand_modified/" + combo, vh::fmt("%s %s modified an operand", combo.c_str(), OPN[op]));
+    }
+    //the same application with temporaries (rvalues) on either side, as in a - (b * c): same values
+    {
+        auto r1 = apply_rv(op, a, b, 1);
+        auto r2 = apply_rv(op, a, b, 2);
+        auto r3 = apply_rv(op, a, b, 3);
+        if (!same_bits(r1, r) || !same_bits(r2, r) || !same_bits(r3, r)) {
+            vh::violation("C03/temporary_operand_value/" + combo, vh::fmt("%s %s gives a different result when an operand is a temporary (n=%d)", combo.c_str(), OPN[op], a.size()));
+        }
+        vh::obs_add("applications_with_temporary_operands", 3);
     }
     return r;
 }
@@ -339,6 +369,35 @@ static void mismatch(Op op, A a, const B& b) {
         }
     });
     vh::obs_add("length_mismatch_cases");
+    if constexpr (!compound) {
+        //temporaries on either side (results of sub-expressions) must be rejected just the same
+        const auto o1 = try_call([&] { (void)apply_rv(op, a, b, 1); });
+        const auto o2 = try_call([&] { (void)apply_rv(op, a, b, 2); });
+        const auto o3 = try_call([&] { (void)apply_rv(op, a, b, 3); });
+        if (o1 != Outcome::Threw || o2 != Outcome::Threw || o3 != Outcome::Threw) {
+            vh::violation("C03/mismatch_not_rejected/temporary/" + combo,
+                          vh::fmt("%s %s with lengths %d and %d did not throw when an operand was a temporary (left temp: %s, right temp: %s, both: %s)", combo.c_str(), OPN[op], a0.size(), b0.size(),
+                                  o1 == Outcome::Threw ? "threw" : "returned", o2 == Outcome::Threw ? "threw" : "returned", o3 == Outcome::Threw ? "threw" : "returned"));
+        }
+    } else {
+        const auto o2 = try_call([&] {
+            switch (op) {
+            case ADD: a += B(b); break;
+            case SUB: a -= B(b); break;
+            case MUL: a *= B(b); break;
+            default:
+                if constexpr (!mul_only_v<A, B>) {
+                    a /= B(b);
+                } else {
+                    a *= B(b);
+                }
+                break;
+            }
+        });
+        if (o2 != Outcome::Threw) {
+            vh::violation("C03/mismatch_not_rejected/temporary/" + combo, vh::fmt("%s %s with lengths %d and %d did not throw when the right operand was a temporary", combo.c_str(), OPN[op], a0.size(), b0.size()));
+        }
+    }
     if (oc != Outcome::Threw) {
         vh::violation("C03/mismatch_not_rejected/" + combo, vh::fmt("%s %s with lengths %d and %d did not throw", combo.c_str(), OPN[op], a0.size(), b0.size()));
     }
